@@ -74,7 +74,7 @@ def handleVM (ws : List String) : String :=
     | op :: rest =>
       match (do
         let (vm', r) ← applyOp p cap vm op
-        let d ← vmDump p vm' r withActs
+        let d ← vmDump p vm' r (withActs || op == "v")
         pure (vm', d)) with
       | .ok (vm', d) => go vm' rest (d :: acc)
       | .error f => (acc.reverse, some f)
